@@ -252,6 +252,8 @@ def run(c):
     c.build_props()
     n = 120 if c.tier == "quick" else 1500
     cases = [gen_case(c.rng) for _ in range(n)] + [gen_key_case(c.rng) for _ in range(n // 6)] + [gen_same_predicate_case(c.rng) for _ in range(n // 8)] + [gen_negated_or_case(c.rng) for _ in range(max(12, n // 8))]
+    # every fourth case under model names that contain one another (items / line_items / order_line_items / itemsx / items_raw)
+    cases = [jg.rename_case(f_, q_) if k_ % 4 == 1 else (f_, q_) for k_, (f_, q_) in enumerate(cases)]
     outs = None
     if lib.coq_make(["Proofs/C02_proofs.vo", "Model/Plan.vo"])[0]:
         try:
